@@ -7,6 +7,7 @@ visit_<kind> once with exactly those results; V3 descend_into_nodelist keeps one
 result per element in order (None placeholder for None); V4 package subclasses
 overriding node_standard_process_* still pass every child-bearing field on."""
 import ast
+from .. import symex
 from ..core import (AnalysisError, short, unparse, iter_own, call_name, call_recv, kwarg,
                     is_self_attr, parents, enclosing_stmt, const_value)
 
@@ -210,6 +211,44 @@ def run(ctx):
                    'accumulates the nodes of another (a visitor would see nodes of other documents) (C09 R09c)', 4)
     from . import c09 as _c09, c05 as _c05
     _c09._mutable_defaults(_c05._Sub(ctx, 'V6'), repo)
+
+    # ---- V4 (hooks of the recomposing visitor): children handed over undescended are descended on every path
+    rm_ = repo.mod('pylatexenc.latexnodes._latex_recomposer')
+    n_hk = 0
+    for q_, f_ in sorted(rm_.functions.items()):
+        if not (q_.startswith('LatexNodesLatexRecomposer.recompose_')):
+            continue
+        ch_ = [a_.arg for a_ in f_.args.args if a_.arg in ('nodelist', 'parsed_arguments')]
+        if not ch_:
+            continue
+        n_hk += 1
+        try:
+            hcs = symex.Walker(want_returns=True, trace=True, is_sink=lambda c_: isinstance(c_.func, ast.Attribute)
+                               and isinstance(c_.func.value, ast.Name) and c_.func.value.id == 'self').run(f_)
+        except symex.TooManyPaths:
+            ctx.unknown('V4', rm_, f_, 'too many paths', construct=q_ + ': descends')
+            continue
+        bad_ = None
+        for cs in [c for c in hcs if c.kind == 'return']:
+            desc = [t_ for t_ in cs.env.get('#trace', ()) if isinstance(t_[0], ast.Call) and any(
+                isinstance(x_, ast.Name) and x_.id in ch_ for a_ in list(t_[0].args) + [k_.value for k_ in t_[0].keywords]
+                for x_ in ast.walk(a_))]
+            if not desc and bad_ is None:
+                bad_ = cs
+        ctx.decide('V4', bad_ is None, rm_, bad_.node if bad_ else f_,
+                   '%s hands its children (%s) on to a descending call on every path' % (q_, ', '.join(ch_)),
+                   '%s returns on the path [%s] without handing %s to any descending call: the nodes in it are never '
+                   'visited (a visitor derived from the recomposer does not see the chars node of a \\verb argument)'
+                   % (q_, ' & '.join(bad_.cond_src())[-100:] if bad_ else '', ', '.join(ch_)), construct=q_ + ': descends')
+    if n_hk == 0:
+        ctx.unknown('V4', rm_, None, 'no recompose_* hook found', construct='recomposer hooks')
+
+    # ---- V7 (C02 R02c): one argument slot per declared argument
+    ctx.rule('V7', 'the arguments parser produces exactly one slot (a node or the None placeholder) per declared argument, in '
+                   'order, on every path: the parent receives one result per declared argument (C02 R02c)', 1)
+    from . import c02 as _c02
+    from .. import core as _core
+    _core.run_proxied(ctx, _c02, 'V7', ('R02c',))
 
     return 'proof', EXPLANATION
 
